@@ -3,9 +3,11 @@
 (* rewriting or not.  One behaviour = one case.                              *)
 EXTENDS TypeFollow, Json, IOUtils
 CONSTANTS Contexts
-Cases == {[pl |-> pl, ctx |-> cx, two |-> tw, rw |-> rw] :
-             pl \in {"class", "method", "both", "func", "param"}, cx \in Contexts,
-             tw \in BOOLEAN, rw \in BOOLEAN}
+Cases == {cs2 \in {[pl |-> pl, ctx |-> cx, two |-> tw, rw |-> rw] :
+                       pl \in {"class", "method", "both", "func", "param"}, cx \in Contexts,
+                       tw \in BOOLEAN, rw \in BOOLEAN} :
+             (* the chained context has two sites by construction and needs methods *)
+             cs2.ctx = ChainCtx => (cs2.two /\ cs2.pl \in {"class", "method", "both"})}
 VARIABLE cs
 Init == cs \in Cases
 Next == UNCHANGED cs
